@@ -529,7 +529,7 @@ pub fn c07(tier: Tier) -> i32 {
         vector_probe(sut, &mut d2);
         (Ok((d1, d2)), r.steps + 1)
     };
-    let ex = Explorer { rep: &rep, alphabet, node_ids: vec![1, 2], max_depth: tier.pick(2, 3), wall_cap_s: tier.pick(45.0, 1500.0), prune_violating: true };
+    let ex = Explorer { rep: &rep, alphabet, node_ids: vec![1, 2], max_depth: tier.pick(3, 4), wall_cap_s: tier.pick(45.0, 1500.0), prune_violating: true };
     ex.run(&|g: &[Op]| {
         let mut out = Outcome { violations: vec![], runs: 1, steps: 0, label: String::new(), nontrivial: false };
         let (base, st) = observe(g);
